@@ -292,6 +292,7 @@ class Simulation(object):
                 (not rejected) at the Arrival Node
         """
         next_active_node = self.find_next_active_node()
+        previous_time = self.current_time
         self.current_time = next_active_node.next_event_date
 
         if progress_bar:
